@@ -1,7 +1,7 @@
 (* C18 — Signal injection conserves counts and produces only valid, relocated
    events.  Statements only; every proof is `exact <lemma>`. *)
 From Coq Require Import Reals ZArith List Bool Lia.
-From Sky Require Import Num NumR Result PyList G_inject M_Inject S_Inject P_Inject P_InjectR P_InjectMC P_InjectExt.
+From Sky Require Import Num NumR Result PyList G_inject M_Inject S_Inject P_Inject P_InjectR P_InjectMC P_InjectExt M_InjectCfg P_InjectCfg.
 Import ListNotations.
 Open Scope Z_scope.
 
@@ -319,6 +319,33 @@ Theorem C18_sampler_ratio : forall (tbl : list cand) (i : nat) (c : cand),
 Proof. exact samp_w_ratio. Qed.
 Print Assumptions C18_sampler_ratio.
 
+(* ==== extension: validation of the validity-range configuration ==== *)
+
+(* the setter valid_event_field_ranges_dict_list accepts a value exactly when it
+   is a list whose dict entries all have a str key and a 2-tuple value; it then
+   stores the new value; otherwise it raises TypeError or ValueError and the
+   stored configuration is unchanged *)
+Theorem C18_ranges_setter : forall is_list old new,
+  (snd (set_ranges is_list old new) = Ok tt <-> is_list = true /\ Forall rentry_ok (concat new))
+  /\ (snd (set_ranges is_list old new) = Ok tt -> fst (set_ranges is_list old new) = new)
+  /\ (snd (set_ranges is_list old new) <> Ok tt ->
+      fst (set_ranges is_list old new) = old
+      /\ (snd (set_ranges is_list old new) = Err TypeError \/ snd (set_ranges is_list old new) = Err ValueError)).
+Proof. exact set_ranges_spec. Qed.
+Print Assumptions C18_ranges_setter.
+
+(* __init__: a successfully constructed generator has one dict per dataset, all
+   entries well formed; None gives one empty dict per dataset *)
+Theorem C18_ranges_init : forall arg n r,
+  0 <= n -> init_ranges arg n = Ok r ->
+  zlen r = n /\ Forall rentry_ok (concat r)
+  /\ match arg with
+     | None => r = repeat [] (Z.to_nat n)
+     | Some (is_list, l) => is_list = true /\ r = l
+     end.
+Proof. exact init_ranges_spec. Qed.
+Print Assumptions C18_ranges_init.
+
 (* ---- non-vacuity.  NOTE: [stream_choice] replays a prescribed list of draws and does NOT itself satisfy
    [choice_contract]; the Examples using it show that the model runs on concrete inputs (the hand-picked draws
    respect the contract for these inputs).  The hypotheses of the theorems are instantiated with a contract-abiding
@@ -441,3 +468,18 @@ Example C18_analysis_nonvacuous :
      = Ok (0, [5; 0; 2], [Some [1]; None; None], 0%nat)
   /\ an_generate nat Z (fun g m => Ok (m, [(1, [7; 7])], g)) 2 0%nat 1 [5; 0; 2] [Some [1]; None; None] = Err ValueError.
 Proof. repeat split; vm_compute; reflexivity. Qed.
+
+(* configuration validation on concrete inputs: accepted, rejected (int key,
+   list value, 3-tuple, not a list, wrong length), default *)
+Example C18_ranges_nonvacuous :
+  let good := {| r_key_str := true; r_val_tuple := true; r_len := 2 |} in
+  set_ranges true [[]] [[good]; []] = ([[good]; []], Ok tt)
+  /\ set_ranges true [[good]] [[good; {| r_key_str := false; r_val_tuple := true; r_len := 2 |}]] = ([[good]], Err TypeError)
+  /\ set_ranges true [[good]] [[{| r_key_str := true; r_val_tuple := false; r_len := 2 |}]] = ([[good]], Err TypeError)
+  /\ set_ranges true [[good]] [[]; [{| r_key_str := true; r_val_tuple := true; r_len := 3 |}]] = ([[good]], Err ValueError)
+  /\ set_ranges false [[good]] [] = ([[good]], Err TypeError)
+  /\ init_ranges None 3 = Ok [[]; []; []]
+  /\ init_ranges (Some (true, [[good]])) 2 = Err ValueError
+  /\ init_ranges (Some (true, [[good]; []])) 2 = Ok [[good]; []]
+  /\ rentry_ok good.
+Proof. cbv zeta. repeat split; vm_compute; reflexivity. Qed.
